@@ -42,3 +42,9 @@ ENTRY["lean_props_extra"].append("CharonV.Props.C04Limits")
 ENTRY["streams"] = ENTRY["streams"] + [dict(_E05["streams"][0], seeds_quick=1)]
 ENTRY["monitor_sigs"] = ENTRY["monitor_sigs"] + ["qbftwire:honest_message_rejected", "qbftwire:honest_message_not_constructible"]
 ENTRY["trusted_base"] = ENTRY["trusted_base"] + ["translator T-const (extract-qbftconst): the factor of verifyMsgLimits' justification bound, statement shape checked, fails closed"]
+
+# every consensus instance runs on a round timer created for its own duty (the default eager timer captures the duty's
+# slot and keeps the first deadline of each round): the wrapper stream of C03 with monitor conswrap:round_timer_of_other_duty
+from vlib import snippet_C03wrap as _w4
+ENTRY["streams"] = ENTRY["streams"] + [dict(_w4.STREAM, seeds_quick=1)]
+ENTRY["monitor_sigs"] = ENTRY["monitor_sigs"] + ["conswrap:round_timer_of_other_duty", "conswrap:stuck", "conswrap:no_run_started"]
